@@ -11,6 +11,7 @@ CONSTANTS
   ArmKinds = {"rhead", "rreceipt", "rtime"}
   RemineStatus = {0, 1}
   MidScanHeads = FALSE
+  HeldIntake = FALSE
   MaxHeads = 2
   MaxMine = 1
   MaxPush = 0
